@@ -483,6 +483,91 @@ func (s *Session) exec(c Call, res *Res) {
 		setErr(vfs.Chdir(p))
 	case "setumask":
 		setErr(vfs.SetUMask(fs.FileMode(c.Perm)))
+	case "glob":
+		ms, err := vfs.Glob(p)
+		setErr(err)
+
+		for _, m := range ms {
+			res.Names = append(res.Names, s.abstractPath(m).Render())
+		}
+
+		res.N = len(ms)
+
+		if !s.HasMetaPattern(c.P) {
+			res.N = 0
+		}
+	case "walk":
+		// a callback that answers SkipDir / SkipAll / an error at visit number N and hands back the errors it is given
+		action := ""
+		if len(c.Flag) > 0 {
+			action = c.Flag[0]
+		}
+
+		visits := 0
+		werr := vfs.WalkDir(p, func(path string, d fs.DirEntry, err error) error {
+			visits++
+			res.Names = append(res.Names, s.abstractPath(path).Render())
+
+			if err != nil {
+				return err
+			}
+
+			if c.N != 0 && visits == c.N {
+				switch action {
+				case "SkipDir":
+					return fs.SkipDir
+				case "SkipAll":
+					return fs.SkipAll
+				case "Err":
+					return errCallback
+				}
+			}
+
+			return nil
+		})
+
+		switch {
+		case werr == errCallback:
+			res.Err = "ECALLBACK"
+		case werr == fs.SkipAll:
+			res.Err = "ESKIPALL"
+		case werr == fs.SkipDir:
+			res.Err = "ESKIPDIR"
+		default:
+			setErr(werr)
+		}
+
+		res.N = len(res.Names)
+
+		if res.Err != "ok" && res.Err != "ECALLBACK" {
+			res.N = 0
+		}
+	case "exists", "direxists", "isdir", "isempty":
+		var (
+			b   bool
+			err error
+		)
+
+		switch c.Op {
+		case "exists":
+			b, err = avfs.Exists(vfs, p)
+		case "direxists":
+			b, err = avfs.DirExists(vfs, p)
+		case "isdir":
+			b, err = avfs.IsDir(vfs, p)
+		case "isempty":
+			b, err = avfs.IsEmpty(vfs, p)
+		}
+
+		setErr(err)
+
+		if err != nil && strings.Contains(err.Error(), "path does not exist") {
+			res.Err = "ENOEXIST"
+		}
+
+		if b {
+			res.N = 1
+		}
 	case "osinfo":
 		res.Names = []string{vfs.OSType().String(), string(vfs.PathSeparator())}
 	case "subwrite", "submkdir":
@@ -658,6 +743,13 @@ func (s *Session) CloseAll() {
 }
 
 var errDeadlock = errors.New("verif: self-deadlock detected")
+
+var errCallback = errors.New("verif: callback error")
+
+// HasMetaPattern tells whether a glob pattern has a magic character.
+func (s *Session) HasMetaPattern(p Path) bool {
+	return strings.ContainsAny(strings.Join(p.Parts, "/"), "*?[\\")
+}
 
 // ErrInjected is the error a FailFS plan injects.
 var ErrInjected = errors.New("verif: injected failure")
